@@ -24,6 +24,7 @@
 import GoblVerif.Spec.C01
 import GoblVerif.Generated.CalcFacts
 import GoblVerif.Proofs.CalcError
+import GoblVerif.Proofs.CalcErrorMore
 import GoblVerif.Proofs.NumX
 
 namespace GoblVerif.Props.C01
@@ -427,6 +428,112 @@ example : (calcLine exactOps "EUR" 2 [] .precise
     { qty := ⟨3, 0⟩, item := some { price := some ⟨10005, 3⟩, cur := "", sub := 2, alts := [] },
       discounts := [], charges := [], breakdown := [], taxes := [] }).toOption.map (·.sum) = some (some ⟨300150, 4⟩) := by
   decide
+
+/-! ## error bounds against `Spec.C01.exactQ` for lines with discounts and charges
+
+`exactQ d` is the rational pipeline with no rounding anywhere (Spec/C01.lean).  Weights count the
+rounding points in half-units of the working precision (currency + 2 decimals):
+`lineW l = 1 + 2·(#discounts + #charges)`, `sumW = Σ lineW`,
+`totalW d = sumW·(1 + kd + kc) + kd + kc` (kd, kc document discounts / charges). -/
+
+/-- (1) a line of the class `AdjLine` (priced in the document currency, no breakdown; each
+line discount / charge is a non-zero percentage of the line sum of at most 100 %, or a fixed amount
+with at most currency + 2 decimals; no rate × quantity charges): the line total is within
+`lineW l` half-units of the working precision of the exact rational line total -/
+theorem adj_line_error (cur : String) (c : ℕ) (rates : List XRate) (l l' : Line) (hs : AdjLine c l)
+    (h : calcLine exactOps cur c rates .precise l = .ok l') :
+    ∃ t q, l'.total = some t ∧ c + 2 ≤ t.exp ∧ lineTotalQ cur rates l = some q ∧
+      |t.toRat - q| ≤ (lineW l : ℚ) * halfUlp (c + 2) := by
+  obtain ⟨t, q, h1, _, h3, h4, h5⟩ := adjLine_total cur c rates l l' hs h
+  exact ⟨t, q, h1, h3, h4, h5⟩
+
+/-- (1) lifted to the document sum: under the precise rule, with every line of the class `AdjLine`
+and `sumW d.lines < 100`, the presented sum is less than one minor unit from the exact sum -/
+theorem presented_sum_adj_within_one_unit (d : Doc) (out : Out) (t : Totals) (hrule : d.rule = .precise)
+    (hs : ∀ l ∈ d.lines, AdjLine d.c l) (hn : sumW d.lines < 100)
+    (hcalc : calculate exactOps d = .ok out) (ht : out.totals = some t) :
+    |t.sum.toRat - (exactQ d).sum| < 1 / ((pow10 d.c : ℤ) : ℚ) := by
+  obtain ⟨p, tx, hpre, _, _, htr⟩ := calculate_unpack d out t hcalc ht
+  have hts : t.sum = p.sum.rescaleX d.c := by rw [htr]; rfl
+  rw [hts]
+  refine within_unit d.c p.sum _ (sumW d.lines : ℚ) ?_ (pre_sum_spec d p hrule hs hpre)
+  exact_mod_cast Nat.le_of_lt_succ hn
+
+/-- (1) lifted to the presented total: class `DocA` (precise rule, at least one line, lines of the
+class `AdjLine`, document discounts and charges percentages of the sum of at most 100 %), no
+included tax, `totalW d < 100`: the presented total is less than one minor unit from the exact
+total -/
+theorem presented_total_adj_within_one_unit (d : Doc) (out : Out) (t : Totals) (hd : DocA d)
+    (hinc : d.includes = none) (hn : totalW d < 100)
+    (hcalc : calculate exactOps d = .ok out) (ht : out.totals = some t) :
+    |t.total.toRat - (exactQ d).total| < 1 / ((pow10 d.c : ℤ) : ℚ) := by
+  obtain ⟨p, tx, hpre, _, _, htr⟩ := calculate_unpack d out t hcalc ht
+  have hts : t.total = p.total2.rescaleX d.c := by
+    rw [htr]; simp [roundTotals, rawTotals, taxIncluded, hinc]
+  obtain ⟨_, _, _, _, _, _, _, _, hb⟩ := pre_spec d p hd hpre
+  rw [hts, exactQ_total, exactQ_inc_none d hinc, sub_zero]
+  refine within_unit d.c p.total2 _ (totalW d : ℚ) ?_ hb
+  exact_mod_cast Nat.le_of_lt_succ hn
+
+/-- one line 3 × 10.005 with a 12.5 % discount, a fixed discount of 0.333 and a 2.5 % charge, one
+line 1.2 × 2.222 with a fixed charge of 1.25; 10 % document discount, 2 % document charge -/
+def adjDoc : Doc :=
+  { cur := "EUR", c := 2, rule := .precise, includes := none,
+    lines := [{ qty := ⟨3, 0⟩, item := some { price := some ⟨10005, 3⟩, cur := "", sub := 2, alts := [] },
+                discounts := [{ percent := some ⟨⟨125, 3⟩⟩, base := none, amount := ⟨0, 0⟩, rate := none, quantity := none },
+                              { percent := none, base := none, amount := ⟨333, 3⟩, rate := none, quantity := none }],
+                charges := [{ percent := some ⟨⟨25, 3⟩⟩, base := none, amount := ⟨0, 0⟩, rate := none, quantity := none }],
+                breakdown := [],
+                taxes := [{ cat := "VAT", country := "", key := "standard", percent := some ⟨⟨21, 2⟩⟩,
+                            surcharge := none, ext := "", retained := false }] },
+              { qty := ⟨12, 1⟩, item := some { price := some ⟨2222, 3⟩, cur := "", sub := 2, alts := [] },
+                discounts := [],
+                charges := [{ percent := none, base := none, amount := ⟨125, 2⟩, rate := none, quantity := none }],
+                breakdown := [],
+                taxes := [{ cat := "VAT", country := "", key := "reduced", percent := some ⟨⟨105, 3⟩⟩,
+                            surcharge := none, ext := "", retained := false }] }],
+    discounts := [{ percent := some ⟨⟨10, 2⟩⟩, base := none, amount := ⟨0, 0⟩, taxes := [] }],
+    charges := [{ percent := some ⟨⟨2, 2⟩⟩, base := none, amount := ⟨0, 0⟩, taxes := [] }],
+    rates := [], rounding := none, hasPayment := false, advances := [], dues := [] }
+
+theorem adjDoc_lines : ∀ l ∈ adjDoc.lines, AdjLine adjDoc.c l := by
+  intro l hl
+  simp only [adjDoc, List.mem_cons, List.mem_nil_iff, or_false] at hl
+  rcases hl with rfl | rfl
+  · refine ⟨_, _, rfl, rfl, rfl, rfl, ?_, ?_⟩
+    · intro x hx
+      simp only [List.mem_cons, List.mem_nil_iff, or_false] at hx
+      rcases hx with rfl | rfl
+      · exact ⟨rfl, Or.inl ⟨_, rfl, rfl, rfl, by norm_num [Amount.toRat, pow10]⟩⟩
+      · exact ⟨rfl, Or.inr ⟨rfl, by decide⟩⟩
+    · intro x hx
+      simp only [List.mem_cons, List.mem_nil_iff, or_false] at hx
+      subst hx
+      exact ⟨rfl, Or.inl ⟨_, rfl, rfl, rfl, by norm_num [Amount.toRat, pow10]⟩⟩
+  · refine ⟨_, _, rfl, rfl, rfl, rfl, ?_, ?_⟩
+    · intro x hx; simp at hx
+    · intro x hx
+      simp only [List.mem_cons, List.mem_nil_iff, or_false] at hx
+      subst hx
+      exact ⟨rfl, Or.inr ⟨rfl, by decide⟩⟩
+
+theorem adjDoc_class : DocA adjDoc := by
+  refine ⟨rfl, by decide, adjDoc_lines, ?_, ?_⟩
+  · intro x hx
+    simp only [adjDoc, List.mem_singleton] at hx
+    subst hx
+    exact ⟨⟨⟨10, 2⟩⟩, rfl, rfl, rfl, by norm_num [Amount.toRat, pow10]⟩
+  · intro x hx
+    simp only [adjDoc, List.mem_singleton] at hx
+    subst hx
+    exact ⟨⟨⟨2, 2⟩⟩, rfl, rfl, rfl, by norm_num [Amount.toRat, pow10]⟩
+
+/-- non-vacuity of (1): the class holds, weights 7 + 3 = 10 and 10·3 + 2 = 32; exact line totals
+26.680625 and 3.9164, exact sum 30.597025 (presented 30.60), exact total 28.149263 (presented 28.15) -/
+example : DocA adjDoc ∧ adjDoc.includes = none ∧ sumW adjDoc.lines = 10 ∧ totalW adjDoc = 32 ∧
+    ((calculate exactOps adjDoc).toOption.bind (·.totals)).map (fun t => (t.sum, t.total)) =
+      some (⟨3060, 2⟩, ⟨2815, 2⟩) :=
+  ⟨adjDoc_class, rfl, by decide, by decide, by decide⟩
 
 /-! ## pinned source shapes (regenerated facts; tools/pin_calc_expect.py) -/
 
